@@ -34,6 +34,8 @@ SPECIAL = {
     "Ehr": lambda: ["E", [[10, 0, "h", ""], [30, 0, "r", ""]]],
     "Ec3": lambda: ["E", TRAFFIC + [[30, 0, "c", "0bb8"]]],
     "Ec4": lambda: ["E", [[30, 0, "c", "1387627965"]]],
+    # a half-dead peer: data keeps arriving more often than the ping timeout, pings are never answered
+    "Et": lambda: ["E", [[800, 0, "t", "7469636b"]] * 40],
 }
 OUTCOMES_ALL = dict(OUTCOMES, **SPECIAL)
 FINAL = {"close": ["E", [[70, 0, "b", "00"], [40, 0, "c", "03e8"]]], "none": None}
@@ -60,6 +62,7 @@ def cls_of(sc):
 
 def extra(ctx, sc, r):
     n = appcheck.size_of(sc)
+    halfdead_extra(ctx, sc, r)
     if r["live_max"] > 1:
         ctx.violate("resources", appcheck.qualify("two-transports-open", sc), sc, "at most one live transport", f"max live = {r['live_max']}", size=n)
     for i, al in enumerate(r["alive"]):
@@ -68,6 +71,25 @@ def extra(ctx, sc, r):
     if r["leaked"]:
         ctx.violate("resources", appcheck.qualify("transport-open-and-reachable-after-return", sc), sc, "every transport closed or unreachable",
                     str(r["leaked"]), size=n)
+
+
+def halfdead_extra(ctx, sc, r):
+    """worlds with an "Et" connection (iv > 2*to): the first unanswered ping at T must be reported by T + 2*to."""
+    if "Et" not in sc.get("tag", "").split("|")[0].split("-"):
+        return
+    t_ping, t_rep = None, None
+    for it in r["trace"].split(";"):
+        t, _, rest = it.partition(":")
+        if rest.startswith("wrote:9:") and t_ping is None:
+            t_ping = int(t)
+        # the loss of a RE-established connection is not reported to on_error (handleDisconnect(e, reconnecting=True)):
+        # "noticed" = the ping thread is stopped / the retry sleep starts
+        if (rest == "cb:on_error:eTIMEOUT" or rest == "pingStop" or rest.startswith("sleep:")) and t_rep is None and t_ping is not None:
+            t_rep = int(t)
+    if t_ping is not None and (t_rep is None or t_rep > t_ping + 2 * sc["to"]):
+        ctx.violate("retry", "ping-timeout-not-noticed-while-data-keeps-arriving", sc,
+                    f"ping/pong timeout reported by {t_ping + 2 * sc['to']} and a new attempt follows",
+                    f"first ping {t_ping}, report {t_rep}; trace …{r['trace'][-200:]}", size=appcheck.size_of(sc))
 
 
 def scenarios(ctx):
@@ -100,6 +122,13 @@ def scenarios(ctx):
         sc = scenario(seq, TPS, "close", ka=True)
         sc["kind"] = "special"
         scs.append(sc)
+    # steady inbound data without pongs: the ping timeout must still be noticed and followed by a new attempt (iv > 2*to)
+    for seq in (("Et",), ("Et", "Ee"), ("Ee", "Et")):
+        for ssl in (False, True):
+            for sched in ("", "1", "01"):
+                sc = scenario(seq, TPS, "close", ka=True, ssl=ssl, sched=sched)
+                sc.update(iv=5 * TPS, to=2 * TPS, kind="special", horizon=160 * TPS)
+                scs.append(sc)
     # application close() at each point of a reconnecting run
     seqs = [("Ee", "R", "Ee"), ("R", "Ee"), ("Er", "J", "Ex"), ("Ee", "Ee", "Ee")]
     sites = [("on_open", 0), ("on_open", 1), ("on_reconnect", 0), ("on_reconnect", 1), ("on_message", 0),
@@ -139,6 +168,38 @@ def scenarios(ctx):
         sc["kind"] = "random"
         scs.append(sc)
     return scs
+
+
+def closer_scenarios(ctx):
+    """the application's close() from ANOTHER thread while reconnection is on, the server reacting to the close frame by
+    dropping the connection (no close reply): the run ends, no further attempt (real runs + the oracle below)."""
+    scs = []
+    for t in (150, 200, 201, 260):
+        for drop in (1, 40, 300):
+            for sched in ("", "1", "01", "10", "11", "101"):
+                for ka in (False, True):
+                    evs = [[100, 0, "t", "6869"], [100, 0, "p", "70"], [t - 200 + drop if t + drop > 200 else 1, 0, "e", ""]]
+                    sc = {"cbs": appsim.ALL, "rc": TPS, "runs": [[["E", evs], ["E", TRAFFIC + [[30, 0, "c", "03e8"]]]]],
+                          "closer": [t], "sched": sched, "horizon": 30 * TPS, "kind": "closer",
+                          "tag": f"closer@{t}|drop+{drop}|rc=1s|ka={int(ka)}"}
+                    if ka:
+                        sc.update(iv=3 * TPS, to=2 * TPS)
+                    scs.append(sc)
+                    if not ka:
+                        # the closing thread is descheduled right after its close frame went out (a legal interleaving):
+                        # the main loop is the one that sees the connection drop
+                        sc2 = dict(sc, stall_after_send=[0, drop + 50], tag=sc["tag"] + "|closer-stalled-after-write")
+                        scs.append(sc2)
+    return scs
+
+
+def closer_extra(ctx, sc, r):
+    extra(ctx, sc, r)
+    items = r["trace"].split(";") if r["trace"] else []
+    called = next((i for i, it in enumerate(items) if it.partition(":")[2].startswith("closeCall")), None)
+    if called is not None and any(":dial:" in it for it in items[called + 1:]):
+        ctx.violate("stops", "dial-after-app-close@second-thread-close", sc, "no connection attempt after the application's close()",
+                    r["trace"][-400:], size=appcheck.size_of(sc))
 
 
 def external_scenarios(ctx):
@@ -184,6 +245,8 @@ def run(ctx):
                       nontrivial_of=lambda sc: len(sc["runs"][0]) > 1)
     appcheck.evaluate(ctx, "C15", external_scenarios(ctx), cls_of=cls_of, extra_check=external_extra, model=False,
                       nontrivial_of=lambda sc: len(sc["runs"][0]) > 1)
+    appcheck.evaluate(ctx, "C15", closer_scenarios(ctx), cls_of=cls_of, extra_check=closer_extra, model=False,
+                      nontrivial_of=lambda sc: True)
 
 
 def search(ctx):
